@@ -132,7 +132,11 @@ class OptimalityThresholder:
                 if k not in edp_mapping.columns:
                     nondominated |= True
                 else:
-                    nondominated |= edp_mapping[k] <= v
+                    # The values being compared come from different rounds that sum and
+                    # multiply float32 columns in different orders, so the very mapping
+                    # that produced v may be recomputed a few ulps above v. Compare with
+                    # a small relative slack so that rounding never filters it out.
+                    nondominated |= edp_mapping[k] <= v + abs(v) * 1e-6
             nondominated_by_all &= nondominated
 
         if self._pmapping_row_filter_function is not None:
